@@ -14,18 +14,22 @@ Record tls_record := {
   r_raw : bytes;          (* the whole record *)
   r_meta : list packet }. (* metadata: the buffered packets whose byte range intersects the record's *)
 
-(* list.sort(key=lambda x: x.seq): stable; insertion after equal keys *)
+(* seq_cmp(a, b) < 0: a sorts before b, in serial number arithmetic modulo 2^32 *)
+Definition seq_cmp (a b : Z) : Z := (a - b + 2147483648) mod 4294967296 - 2147483648.
+Definition seq_lt (a b : Z) : bool := seq_cmp a b <? 0.
+
+(* list.sort(key=cmp_to_key(seq_cmp)): stable; a new element goes after the elements it does not sort before *)
 Fixpoint insert_seq (p : packet) (b : list packet) : list packet :=
   match b with
   | [] => [p]
-  | x :: r => if p_seq p <? p_seq x then p :: x :: r else x :: insert_seq p r
+  | x :: r => if seq_lt (p_seq p) (p_seq x) then p :: x :: r else x :: insert_seq p r
   end.
 Definition sort_seq (b : list packet) : list packet := fold_left (fun acc p => insert_seq p acc) b [].
 
-(* for i in range(len-1): buf[i].seq + len(buf[i].tls_data) != buf[i+1].seq -> return *)
+(* for i in range(len-1): (buf[i].seq + len(buf[i].tls_data)) & 0xFFFFFFFF != buf[i+1].seq -> return *)
 Fixpoint contiguous (b : list packet) : bool :=
   match b with
-  | p1 :: ((p2 :: _) as r) => (p_seq p1 + len (p_data p1) =? p_seq p2) && contiguous r
+  | p1 :: ((p2 :: _) as r) => ((p_seq p1 + len (p_data p1)) mod 4294967296 =? p_seq p2) && contiguous r
   | _ => true
   end.
 
@@ -58,13 +62,16 @@ Fixpoint cut (fuel : nat) (d : bytes) (rs : list (Z * Z * packet)) (i : Z) : res
                 Ok (mk_record (slice d i (i + rl)) (overlapping rs i rl) :: rest)
        end.
 
-(* extract_*_buf after appending the packet: (new buffer, records released) *)
-Definition extract (buf : list packet) : result (list packet * list tls_record) :=
+(* extract_*_buf after appending the packet.  next = the *_next_seq attribute: None until the direction's buffer has been consumed
+   once, then the sequence number of the next byte expected.  Result: (next', new buffer, records released). *)
+Definition extract (next : option Z) (buf : list packet) : result (option Z * list packet * list tls_record) :=
   let b := sort_seq buf in
-  if contiguous b then
+  let gate := match next, b with Some n, p :: _ => p_seq p =? n | _, _ => true end in
+  if gate && contiguous b then
     let d := concat (map p_data b) in
     do complete <- walk (S (length d)) d 0;
     if complete then
-      do recs <- cut (S (length d)) d (ranges b 0) 0; Ok ([], recs)
-    else Ok (b, [])
-  else Ok (b, []).
+      do recs <- cut (S (length d)) d (ranges b 0) 0;
+      Ok (match rev b with last :: _ => Some ((p_seq last + len (p_data last)) mod 4294967296) | [] => next end, [], recs)
+    else Ok (next, b, [])
+  else Ok (next, b, []).
